@@ -317,6 +317,11 @@ pub struct Acc {
     pub checks: u64,
     pub nontrivial: u64,
     pub configs: u64,
+    pub bfs_states: u64,
+    pub bfs_transitions: u64,
+    pub bfs_max_depth: u64,
+    pub bfs_capped: u64,
+    pub bfs_configs: u64,
     pub outcomes: std::collections::HashSet<u64>,
     pub samples: Vec<Value>,
 }
@@ -328,6 +333,11 @@ pub fn merge(a: &mut Acc, b: Acc) {
     a.checks += b.checks;
     a.nontrivial += b.nontrivial;
     a.configs += b.configs;
+    a.bfs_states += b.bfs_states;
+    a.bfs_transitions += b.bfs_transitions;
+    a.bfs_max_depth = a.bfs_max_depth.max(b.bfs_max_depth);
+    a.bfs_capped += b.bfs_capped;
+    a.bfs_configs += b.bfs_configs;
     if a.outcomes.len() < 65536 {
         a.outcomes.extend(b.outcomes);
     }
@@ -400,7 +410,7 @@ fn values_cmp(got: &P, prev: &P, want: &RefOut, sc: (f64, f64, f64)) -> Result<(
 
 /// Executes one history on a fresh real animator with the reference stepped alongside and checks
 /// the clauses of `prop` on the LAST operation.
-pub fn check_history(cfg: &Config, init: S4, h: &[Op], prop: Prop, rank: u64, acc: &mut Acc) {
+pub fn check_history(cfg: &Config, init: S4, h: &[Op], prop: Prop, rank: u64, acc: &mut Acc) -> (Obs, RefAnim) {
     acc.histories += 1;
     let mut real = cfg.build(init);
     let mut model = RefAnim::new(init);
@@ -532,6 +542,118 @@ pub fn check_history(cfg: &Config, init: S4, h: &[Op], prop: Prop, rank: u64, ac
             }
         }
     }
+    (post, model)
+}
+
+/// C06 companion for steps that are NOT exactly representable (0.1, 0.2, 0.3, 1/3, 0.7): every
+/// sequence of 2..=5 such steps in state X (entered from non-default initial values) against one
+/// advance of the f32 sum. The statement promises agreement "within float rounding": the clocks differ
+/// by a few nanoseconds, so values may differ by slope * 1e-7 * span; sequences whose end time lies within
+/// 1e-5 s of a discontinuity of the reference (cycle wrap, end, end of the first pass) are skipped.
+fn c06_nonrepresentable(cfg: &Config, rank0: u64, acc: &mut Acc) {
+    let steps = [0.1f32, 0.2, 0.3, 1.0 / 3.0, 0.7];
+    let Some(sh) = cfg.shape(S4::X) else { return };
+    let entry = initial_values();
+    for len in 2..=5usize {
+        for code in 0..5usize.pow(len as u32) {
+            let mut c = code;
+            let seq: Vec<f32> = (0..len).map(|_| { let s = steps[c % 5]; c /= 5; s }).collect();
+            let sum: f32 = seq.iter().sum();
+            let mut a = cfg.build(S4::X);
+            for s in &seq {
+                a.advance(*s);
+            }
+            let mut b = cfg.build(S4::X);
+            b.advance(sum);
+            acc.histories += 2;
+            acc.ops += len as u64 + 1;
+            let (va, vb) = (a.current_values().clone(), b.current_values().clone());
+            let t = a.verif_time_in_state().as_secs_f32();
+            // skip near discontinuities of the reference
+            let eps = 2e-5f32;
+            let (lo, hi) = (sh.eval((t - eps).max(0.0), &entry), sh.eval(t + eps, &entry));
+            let close = |x: RV, y: RV, tol: f64| match (x, y) {
+                (RV::Val(p), RV::Val(q)) => (p - q).abs() <= tol,
+                (p, q) => p == q,
+            };
+            let sc = sh.scale(&entry);
+            let tol_a = 1e-3 * sc.0.max(1.0);
+            if !(close(lo.a, hi.a, tol_a) && close(lo.k, hi.k, 1.0 + 1e-3 * sc.1) && close(lo.d, hi.d, 1e-3 * sc.2.max(1.0))) {
+                acc.checks += 1; // counted, skipped
+                continue;
+            }
+            acc.checks += 1;
+            acc.nontrivial += 1;
+            let bad = (va.a - vb.a).abs() as f64 > tol_a || (va.k - vb.k).abs() > 1 || (va.d - vb.d).abs() > 1e-3 * sc.2.max(1.0) || a.is_ended() != b.is_ended() && !near_total(sh, t);
+            if bad {
+                acc.sink.add("schedule-dependence:non-representable-steps", rank0 | (len as u64) << 32 | code as u64, || {
+                    (format!("advance {:?} one by one gives {:?} (ended {}), advance({sum}) gives {:?} (ended {}) | config X={} variant {}", seq, va, a.is_ended(), vb, b.is_ended(), cfg.names[0], cfg.variant), json!({"config": cfg.to_json(), "steps": seq, "sum": sum}))
+                });
+            }
+        }
+    }
+}
+
+
+/// C07 companion with non-dyadic timings and steps: the statement as worded against the *reported*
+/// duration: is_ended <=> time in state (as f32 seconds) >= Timeline::duration(); sticky; values
+/// bit-constant once ended.
+fn c07_nondyadic(acc: &mut Acc) {
+    let kf2 = |a0: f32, a1: f32| vec![Kf { pos: 0.0, a: Some(a0), k: Some(1), d: None, easing: None }, Kf { pos: 1.0, a: Some(a1), k: Some(9), d: None, easing: None }];
+    let specs: Vec<Vec<TlSpec>> = vec![
+        vec![TlSpec { kfs: kf2(0.1, 12.7), default_easing: 4, timing: Timing::new(0.3, 0.1, Rep::Times(2), false) }],
+        vec![TlSpec { kfs: kf2(-3.3, 0.9), default_easing: 0, timing: Timing::new(0.7, 0.0, Rep::None, true) }],
+        vec![TlSpec { kfs: kf2(5.5, -5.5), default_easing: 5, timing: Timing::new(1.1, 0.3, Rep::Times(1), false) }],
+        vec![TlSpec { kfs: kf2(1.0, 2.0), default_easing: 0, timing: Timing::new(0.3, 0.0, Rep::None, false) }, TlSpec { kfs: kf2(7.0, 8.0), default_easing: 0, timing: Timing::new(0.7, 0.1, Rep::Times(1), false) }],
+    ];
+    let steps = [0.1f32, 0.05, 0.7, 1.0, 0.3];
+    for (si, sp) in specs.iter().enumerate() {
+        let merged = MergedTimeline::of(sp.iter().map(|s| s.build()).collect::<Vec<_>>());
+        let reported = merged.duration();
+        for len in 1..=6usize {
+            for code in 0..5usize.pow(len as u32) {
+                let mut a: Anim = StateAnimatorBuilder::<S4, PTimeline>::new().from_state(S4::X).from_values(initial_values()).on(S4::X, merged.clone()).build();
+                let mut c = code;
+                let mut was_ended = false;
+                let mut frozen: Option<P> = None;
+                acc.histories += 1;
+                for i in 0..len {
+                    let st = steps[c % 5];
+                    c /= 5;
+                    a.advance(st);
+                    acc.ops += 1;
+                    acc.checks += 1;
+                    let t = a.verif_time_in_state().as_secs_f32();
+                    let want = t >= reported;
+                    let rank = (5u64 << 56) | (si as u64) << 48 | (len as u64) << 40 | (code as u64) << 4 | i as u64;
+                    let mk = || json!({"timelines": sp.iter().map(|s| s.to_json()).collect::<Vec<_>>(), "steps_code": code, "length": len, "steps_alphabet": steps});
+                    if want != was_ended {
+                        acc.nontrivial += 1;
+                    }
+                    if a.is_ended() != want {
+                        acc.sink.add("non-dyadic:is_ended-disagrees-with-reported-duration", rank, || (format!("is_ended() = {} but time in state {t} vs duration() {reported}", a.is_ended()), mk()));
+                    }
+                    if was_ended && !a.is_ended() {
+                        acc.sink.add("non-dyadic:is_ended-not-sticky", rank, || ("is_ended went back to false".into(), mk()));
+                    }
+                    if let Some(f) = &frozen {
+                        if f.bits() != a.current_values().bits() {
+                            acc.sink.add("non-dyadic:values-move-after-end", rank, || (format!("values changed after the end: {:?} -> {:?}", f, a.current_values()), mk()));
+                        }
+                    }
+                    // values are at rest only strictly after the end instant (at t == total the timeline is still on its last active instant)
+                    if a.is_ended() && t > reported && frozen.is_none() {
+                        frozen = Some(a.current_values().clone());
+                    }
+                    was_ended = a.is_ended();
+                }
+            }
+        }
+    }
+}
+
+fn near_total(sh: &RefShape, t: f32) -> bool {
+    sh.total.map(|tot| (t as f64 - tot).abs() < 1e-4).unwrap_or(false)
 }
 
 // ------------------------------------------------------------------------------------------------
@@ -579,6 +701,74 @@ fn explore_full(cfg: &Config, init: S4, ops: &[Op], depth: usize, prop: Prop, ra
     }
 }
 
+
+/// Canonical key of the animator's complete mutable state: current state, time in state, pause
+/// record, current values, and the start values each animated state's timeline was last blended
+/// from (the timelines' only mutable part). Equal keys have equal futures.
+fn state_key(o: &Obs, m: &RefAnim) -> Vec<u64> {
+    let mut k = vec![o.state as u64, o.time.as_nanos() as u64, o.ended as u64];
+    match &o.paused {
+        Some((s, t)) => k.extend([1, *s as u64, t.as_nanos() as u64]),
+        None => k.extend([0, 0, 0]),
+    }
+    k.extend(o.values.bits());
+    for s in [S4::X, S4::Y] {
+        match &m.entry[sidx(s)] {
+            Some(p) => k.extend(p.bits()),
+            None => k.extend([u64::MAX; 5]),
+        }
+    }
+    k
+}
+
+/// De-duplicating breadth-first pass: explores histories level by level, keeps one representative
+/// history per canonical state, evaluates the property's clauses on every explored transition.
+/// Advances are disabled once the time in state has reached `horizon` (finite space); stops at
+/// `cap` distinct states. Returns (distinct states, transitions, max depth, cap hit).
+fn explore_bfs(cfg: &Config, init: S4, horizon: Duration, cap: usize, prop: Prop, rank0: u64, acc: &mut Acc) -> (u64, u64, u64, bool) {
+    let ops = [Op::Adv(0.25), Op::Adv(1.0), Op::Adv(8.0), Op::Set(S4::X), Op::Set(S4::Y), Op::Set(S4::U1), Op::Set(S4::U2)];
+    let mut seen: std::collections::HashSet<Vec<u64>> = std::collections::HashSet::new();
+    let real0 = cfg.build(init);
+    seen.insert(state_key(&observe(&real0), &RefAnim::new(init)));
+    // frontier entries: (history, time in state at its end)
+    let mut frontier: Vec<(Vec<Op>, Duration)> = vec![(vec![], Duration::ZERO)];
+    let (mut transitions, mut depth, mut capped) = (0u64, 0u64, false);
+    while !frontier.is_empty() && !capped {
+        depth += 1;
+        let mut next = vec![];
+        'level: for (h, t_end) in &frontier {
+            for op in &ops {
+                if matches!(op, Op::Adv(_)) && *t_end >= horizon {
+                    continue;
+                }
+                let mut h2 = h.clone();
+                h2.push(*op);
+                transitions += 1;
+                let relevant = !(prop == Prop::C04 && matches!(op, Op::Adv(_)));
+                let (post, model) = if relevant {
+                    check_history(cfg, init, &h2, prop, rank0 | (2 << 48) | (depth << 40) | (transitions & 0xff_ffff_ffff), acc)
+                } else {
+                    // advances carry no C04 clause; still needed to reach the successor state
+                    let mut scratch = Acc::default();
+                    let r = check_history(cfg, init, &h2, Prop::C06, 0, &mut scratch);
+                    acc.ops += scratch.ops;
+                    r
+                };
+                let key = state_key(&post, &model);
+                if seen.insert(key) {
+                    next.push((h2, post.time));
+                    if seen.len() >= cap {
+                        capped = true;
+                        break 'level;
+                    }
+                }
+            }
+        }
+        frontier = next;
+    }
+    (seen.len() as u64, transitions, depth, capped)
+}
+
 /// Deviation-bounded pass: default action advance(1/4); every history of length <= len with at
 /// most k deviations (any other symbol of the alphabet).
 fn explore_deviations(cfg: &Config, init: S4, ops: &[Op], len: usize, k: usize, prop: Prop, rank0: u64, acc: &mut Acc) -> u64 {
@@ -616,6 +806,7 @@ fn explore_deviations(cfg: &Config, init: S4, ops: &[Op], len: usize, k: usize, 
 
 pub fn run(run: Run, prop: Prop) -> ! {
     let thorough = run.is_thorough();
+    let bfs_cap: usize = if thorough { 150_000 } else { 12_000 };
     let ops = alphabet(prop);
     let (depth, dev_len, dev_k) = match (prop, thorough) {
         (Prop::C04, false) => (6, 12, 3),
@@ -656,6 +847,18 @@ pub fn run(run: Run, prop: Prop) -> ! {
             if fo == ops.len() {
                 acc.configs += 1;
                 explore_deviations(&cfg, init, &ops, dev_len, dev_k, prop, rank0, acc);
+                let np = pool(0).len();
+                if thorough || yi == xi || yi == (xi + 1) % np {
+                    let (st, tr, dp, capped) = explore_bfs(&cfg, init, Duration::from_secs(10), bfs_cap, prop, rank0, acc);
+                    acc.bfs_states += st;
+                    acc.bfs_transitions += tr;
+                    acc.bfs_max_depth = acc.bfs_max_depth.max(dp);
+                    acc.bfs_capped += capped as u64;
+                    acc.bfs_configs += 1;
+                }
+                if prop == Prop::C06 && yi == 0 {
+                    c06_nonrepresentable(&cfg, rank0 | (1 << 51), acc);
+                }
                 if acc.samples.len() < 2 && ci % 37 == 5 {
                     let h = [Op::Adv(0.25), Op::Set(S4::U1), Op::Adv(1.0), Op::Set(S4::Y), Op::Adv(0.25), Op::Set(S4::X)];
                     let mut real = cfg.build(init);
@@ -698,6 +901,10 @@ pub fn run(run: Run, prop: Prop) -> ! {
         merge,
     );
     let _ = explore_full;
+    let mut acc = acc;
+    if prop == Prop::C07 {
+        c07_nondyadic(&mut acc);
+    }
     let id = format!("{prop:?}");
     let mut cov = Map::new();
     cov.insert("states".into(), json!(acc.histories));
@@ -705,16 +912,17 @@ pub fn run(run: Run, prop: Prop) -> ! {
     cov.insert("traces_validated_against_impl".into(), json!(acc.histories));
     cov.insert("evaluations".into(), json!(acc.checks));
     cov.insert("distinct_nontrivial".into(), json!(acc.nontrivial));
-    cov.insert("rule".into(), json!(format!("{} animator configurations (X and Y timelines from a pool of 14 shapes: finite, to-only, mid-keyframe-only, delayed, Times 1, reversing, infinite, infinite-reversing-delayed, merged disjoint finite+infinite, merged overlapping, partial, empty merged list, infinite with delay = cycle, delayed Times 2; two un-animated states; Linear/polynomial or built-in Bezier easings; non-default initial values; initial state X or U1) x ALL histories of length 1..={} over the alphabet [{}] (a state is the history: the real animator is rebuilt and replayed; clauses are evaluated on the last operation of each history, so every operation of every history is checked once) + deviation-bounded pass: default advance(1/4), all histories of length <= {} with <= {} deviations. {}", cfgs.len(), depth, ops.iter().map(|o| o.name()).collect::<Vec<_>>().join(", "), dev_len, dev_k, match prop {
+    cov.insert("rule".into(), json!(format!("{} animator configurations (X and Y timelines from a pool of 14 shapes: finite, to-only, mid-keyframe-only, delayed, Times 1, reversing, infinite, infinite-reversing-delayed, merged disjoint finite+infinite, merged overlapping, partial, empty merged list, infinite with delay = cycle, delayed Times 2; two un-animated states; Linear/polynomial or built-in Bezier easings; non-default initial values; initial state X or U1) x ALL histories of length 1..={} over the alphabet [{}] (a state is the history: the real animator is rebuilt and replayed; clauses are evaluated on the last operation of each history, so every operation of every history is checked once) + deviation-bounded pass: default advance(1/4), all histories of length <= {} with <= {} deviations + de-duplicating breadth-first pass keyed on the complete mutable state (counts under bfs_pass; a capped level is reported, everything below the cap depth is complete). {}", cfgs.len(), depth, ops.iter().map(|o| o.name()).collect::<Vec<_>>().join(", "), dev_len, dev_k, match prop {
         Prop::C04 => "Oracle: current_values bit-identical before/after every set_state; same-state set_state leaves time, pause record and is_ended unchanged. non-trivial = set_state calls that change the state",
         Prop::C05 => "Oracle: RefAnimator stepped alongside (current_state, time in state via hook, live pause record via hook, values = state's merged timeline started from the values observed at entry, evaluated at the time in state; un-animated fields bit-identical). non-trivial = operations after which the current state animates at least one property",
-        Prop::C06 => "Oracle: the history and its normal form (consecutive advances merged, zero advances and same-state changes dropped) end with bit-identical values, state and is_ended; advance(0) is a no-op. non-trivial = histories that differ from their normal form",
-        Prop::C07 => "Oracle: is_ended <=> no timeline or time in state >= max over components of delay+cycle*(repeats+1), never with an infinite component; sticky; values bit-constant under advances after the end and equal to the reference terminal values. non-trivial = operations across which the reference end status flips",
+        Prop::C06 => "Companion: every sequence of 2..5 non-representable steps (0.1,0.2,0.3,1/3,0.7) vs one advance of their f32 sum, values within float rounding (1e-3 of the value scale; sequences ending within 2e-5 s of a reference discontinuity skipped). Oracle: the history and its normal form (consecutive advances merged, zero advances and same-state changes dropped) end with bit-identical values, state and is_ended; advance(0) is a no-op. non-trivial = histories that differ from their normal form",
+        Prop::C07 => "Companion: 4 non-dyadic timelines (cycles 0.3/0.7/1.1, delays 0.1/0.3, a merged pair) x all step sequences of length <= 6 over {0.1,0.05,0.7,1.0,0.3}: is_ended <=> time in state >= the reported duration(), sticky, values bit-constant after the end. Oracle: is_ended <=> no timeline or time in state >= max over components of delay+cycle*(repeats+1), never with an infinite component; sticky; values bit-constant under advances after the end and equal to the reference terminal values. non-trivial = operations across which the reference end status flips",
     })));
     cov.insert("exhaustive".into(), json!(true));
     cov.insert("depth".into(), json!(depth));
     cov.insert("deviation_bound_completed".into(), json!(dev_k));
     cov.insert("deviation_horizon".into(), json!(dev_len));
+    cov.insert("bfs_pass".into(), json!({"configurations": acc.bfs_configs, "distinct_canonical_states": acc.bfs_states, "transitions": acc.bfs_transitions, "max_depth_reached": acc.bfs_max_depth, "state_cap_per_configuration": bfs_cap, "configurations_that_hit_the_cap": acc.bfs_capped, "alphabet": "advance 1/4, 1, 8; set_state X, Y, U1, U2", "advance_horizon_s": 10, "key": "current state, time in state, pause record, is_ended, value bits, start values of X and Y"}));
     cov.insert("distinct_observed_outcomes_capped".into(), json!(acc.outcomes.len()));
     cov.insert("samples".into(), json!(acc.samples));
     let _ = id;
